@@ -74,7 +74,29 @@ fn strip_line_numbers(t: &str) -> String {
         rest = &rest[d..];
     }
     out.push_str(rest);
-    out
+    // trace markers: [123] -> [#]
+    let mut t2 = String::new();
+    let mut it = out.chars().peekable();
+    while let Some(c) = it.next() {
+        t2.push(c);
+        if c == '[' {
+            let mut digits = String::new();
+            while let Some(d) = it.peek() {
+                if d.is_ascii_digit() {
+                    digits.push(*d);
+                    it.next();
+                } else {
+                    break;
+                }
+            }
+            if !digits.is_empty() && it.peek() == Some(&']') {
+                t2.push('#');
+            } else {
+                t2.push_str(&digits);
+            }
+        }
+    }
+    t2
 }
 
 /// The order in which several compile-time diagnostics are reported is not part of any property.
@@ -140,7 +162,17 @@ fn squeeze_blanks(l: &str) -> String {
 impl Meta {
     // ------------------------------------------------------------------ C16
     fn c16(&self, rng: &mut Rng, ctx: &mut Ctx) {
-        let p = gen_prog(rng, true);
+        let mut p = gen_prog(rng, true);
+        // a first line whose output shows the precision of its literals: the case of an exponent letter is
+        // spelling, the letter itself (E or D) is not
+        if let Some(first) = p.lines.first().map(|l| p.num(l.label)) {
+            if first > 0 {
+                let label = 9_000_001usize;
+                let third = |t: &'static str, v: f64, d: i64| gen::Item::E(gen::E::Bin(Box::new(gen::E::Lit(t, v)), "/", Box::new(gen::E::N(d))));
+                p.lines.insert(0, gen::Line { label, sts: vec![gen::St::Print(vec![third("1D0", 1.0, 3), third("2E0", 2.0, 7), third("1D1", 10.0, 3), third("1.5D+1", 15.0, 7)], false)] });
+                p.nums.insert(label, first - 1);
+            }
+        }
         let canon = gen::render(&p);
         let seed = rng.next_u64();
         let spelled = gen::render_spelled(&p, seed);
@@ -201,12 +233,20 @@ impl Meta {
         p.number(if rng.chance(1, 3) { 0 } else { rng.range(1, 9) as u16 }, 3);
         let base = gen::render(&p);
         let mut a = typed_p(&p, &base);
+        let variant = rng.usize(3);
+        // with the trace on, every line that runs is announced once -- under another numbering, and with
+        // lines without code squeezed in between (not when lines are split, and only when no END has to be
+        // appended: the closing END of a program that runs off its end is announced with the last line)
+        let ends_itself = matches!(p.lines.last().map(|l| l.sts.last()), Some(Some(gen::St::Return)) | Some(Some(gen::St::End)));
+        let trace = rng.coin() && (variant == 0 || (variant == 1 && ends_itself));
+        if trace {
+            cmd(&mut a, "TRON");
+        }
         let (ta, sa) = cmd(&mut a, "RUN");
         if sa == Stop::Budget {
             ctx.count("discarded_budget");
             return;
         }
-        let variant = rng.usize(3);
         let (lines, what): (Vec<String>, &str) = match variant {
             0 => {
                 // other numbering
@@ -259,6 +299,10 @@ impl Meta {
         let text = format!("{}\n--- {} ---\n{}", base.join("\n"), what, lines.join("\n"));
         mon::journal(&text);
         let mut b = typed_p(&p, &lines);
+        if trace {
+            cmd(&mut b, "TRON");
+            ctx.count("traced_layout_pairs");
+        }
         let (tb, sb) = cmd(&mut b, "RUN");
         if sb == Stop::Budget {
             ctx.violation("no-stop", "layout:no-stop", "re-laid-out program does not stop", &text);
